@@ -47,6 +47,7 @@ void vf_api_leave (void);          /* interpreter: call returned (stack records 
 void vf_sched_note (void);
 int vf_my_waiter_unlinked_by_waker (void);
 long vf_steps (void);
+int vf_plain_sched (void);
 int vf_fiber_blocked (int k);
 const int *vf_schedule (int *len); /* recorded schedule of this execution */
 
